@@ -23,7 +23,7 @@ RULE = ("event lists (send / advance / prepare / sleep-as-told / ACK / RST / dum
         "case is non-trivial when the implementation retransmitted at least once and at least one "
         "message reached an outcome (stopped by ACK, NACK RST, NACK TOO_MANY_RETRIES); distinct = "
         "distinct case lines")
-WRAPS = ["coap_ticks", "coap_socket_send", "coap_socket_recv"]
+WRAPS = ["coap_ticks", "coap_socket_send", "coap_socket_recv", "epoll_wait"]
 
 
 # ------------------------------------------------------------------ parsing
@@ -32,7 +32,7 @@ def parse_case(line):
     ns = int(t[1])
     cfgs = [tuple(int(x) for x in t[2 + 6 * k: 8 + 6 * k]) for k in range(ns)]
     i = 2 + 6 * ns
-    ar = {"A": 1, "W": 1, "S": 6, "T": 0, "K": 2, "P": 3, "R": 2, "N": 4, "D": 2, "Q": 0}
+    ar = {"A": 1, "W": 1, "S": 6, "T": 0, "K": 2, "P": 3, "R": 2, "N": 4, "D": 2, "I": 1, "Q": 0}
     ev = []
     while i < len(t):
         n = ar.get(t[i])
@@ -191,6 +191,103 @@ def impl_oracle(line, out):
         elif rec["T"] != T:
             problems.append("mid %d: timeout changed from %d to %d" % (rec["mid"], rec["T"], T))
 
+    def process_fired(fired_items):
+        nonlocal last_tick, last_wait
+        for it in fired_items:
+            kind, f = it[1], it[2]
+            if kind == "tx":
+                t, s2, b = int(f[0]), int(f[1]), f[2]
+                mid2 = int(b[4:8], 16) if len(b) >= 8 and not b.startswith("#") else None
+                if t != now:
+                    problems.append("transmission stamped %d during an event at %d" % (t, now))
+                r = rec_for(s2, mid2) if mid2 is not None else None
+                if (s2, mid2) in fog:
+                    stats["retx"] += 1
+                    continue
+                if mid2 is not None and not live.get((s2, mid2)):
+                    problems.append("mid %d on session %d transmitted although it is not pending "
+                                    "(after its outcome, or never accepted)" % (mid2, s2))
+                    continue
+                stats["retx"] += 1
+                if r is None:
+                    continue
+                if b != r["bytes"]:
+                    problems.append("retransmission of mid %d is not byte-identical" % r["mid"])
+                if r["T"] is not None and t < r["tx"][-1] + (r["T"] << (len(r["tx"]) - 1)):
+                    problems.append("mid %d retransmitted at %d, before its deadline" % (r["mid"], t))
+                r["tx"].append(t)
+                if len(r["tx"]) > r["cfg"][4] + 1:
+                    problems.append("mid %d transmitted %d times, MAX_RETRANSMIT=%d" %
+                                    (r["mid"], len(r["tx"]), r["cfg"][4]))
+            elif kind == "nk":
+                t, s2, reason, mid2, has = [int(x) for x in f]
+                if reason != 0 or not has:
+                    problems.append("unexpected NACK %s" % f)
+                    continue
+                l = live.get((s2, mid2), [])
+                if (s2, mid2) in fog:
+                    stats["giveup"] += 1
+                    continue
+                if not l:
+                    problems.append("NACK TOO_MANY_RETRIES for mid %d which is not pending" % mid2)
+                    continue
+                r = l.pop(0)
+                if not r["taint"]:
+                    if len(r["tx"]) != r["cfg"][4] + 1:
+                        problems.append("mid %d given up after %d transmissions, MAX_RETRANSMIT=%d" %
+                                        (mid2, len(r["tx"]), r["cfg"][4]))
+                    if r["T"] is not None and t < r["tx"][-1] + (r["T"] << (len(r["tx"]) - 1)):
+                        problems.append("mid %d given up at %d, before its deadline" % (mid2, t))
+                r["out"] = "giveup"
+                closed.append(r)
+                stats["giveup"] += 1
+            elif kind == "w":
+                t, w, hd = int(f[0]), int(f[1]), int(f[2])
+                last_tick, last_wait = t, w
+                if t != now:
+                    problems.append("prepare stamped %d at %d" % (t, now))
+                npend = sum(len(v) for v in live.values())
+                if fog:
+                    continue
+                if hd < 0:
+                    if npend:
+                        problems.append("nothing queued at %d although %d message(s) are pending" % (t, npend))
+                    if w != 0 and not relaxed:
+                        problems.append("wait %d reported with nothing pending" % w)
+                else:
+                    if not npend:
+                        problems.append("queue head at %d but no message is pending" % hd)
+                    if hd <= t:
+                        problems.append("prepare at %d left a message that was due at %d" % (t, hd))
+                    if w > hd - t:
+                        problems.append("reported wait %d exceeds the time to the earliest deadline %d" % (w, hd - t))
+                    if not relaxed and hd - t < (1 << 32) and w != hd - t:
+                        problems.append("reported wait %d, earliest deadline in %d" % (w, hd - t))
+                    if w == 0 and (hd - t) % (1 << 32) != 0:
+                        problems.append("reported wait 0 (= nothing pending) with a deadline in %d" % (hd - t))
+                    pend = [r for v in live.values() for r in v]
+                    if len(pend) == 1 and not pend[0]["taint"]:
+                        check_T(pend[0], t, hd, len(pend[0]["tx"]) - 1)
+            elif kind == "q":
+                t = int(f[0])
+                ents = [] if f[1] == "-" else [tuple(int(x) for x in z.split("/")) for z in f[1].split(",")]
+                want = sorted((r["sess"], r["mid"]) for v in live.values() for r in v)
+                got = sorted((s2, m2) for (_, s2, m2, _) in ents if (s2, m2) not in fog)
+                if want != got:
+                    problems.append("queue holds %s, pending messages are %s" % (got, want))
+                if [d for (d, _, _, _) in ents] != sorted(d for (d, _, _, _) in ents):
+                    problems.append("queue not ordered by deadline: %s" % ents)
+                for (d, s2, m2, cnt) in ents:
+                    r = rec_for(s2, m2) if (s2, m2) not in fog else None
+                    if r is None:
+                        continue
+                    if cnt != len(r["tx"]) - 1:
+                        problems.append("mid %d: retransmit_cnt %d after %d transmissions" % (m2, cnt, len(r["tx"])))
+                    else:
+                        check_T(r, t, d, cnt)
+            elif kind == "s":
+                problems.append("stray coap_send result")
+
     for ei, e in enumerate(ev):
         k = e[0]
         its = by_ev.get(ei, [])
@@ -202,6 +299,43 @@ def impl_oracle(line, out):
                 now = max(now, last_tick + last_wait + int(e[1]))
             continue
         fired = its
+        if k == "I":
+            # coap_io_process: [fired by the first prepare] ep [fired after the sleep] io
+            tmo = int(e[1])
+            ep = [j for j, it in enumerate(its) if it[1] == "ep"]
+            io = [j for j, it in enumerate(its) if it[1] == "io"]
+            if len(ep) != 1 or len(io) != 1 or io[0] != len(its) - 1:
+                problems.append("coap_io_process: expected one epoll_wait and a result, got %s" % [i[1] for i in its])
+                continue
+            t_ep, et = int(its[ep[0]][2][0]), int(its[ep[0]][2][1])
+            if t_ep != now:
+                problems.append("epoll_wait stamped %d at %d" % (t_ep, now))
+            process_fired(its[:ep[0]])
+            pend = [r for v in live.values() for r in v]
+            dl = [r["tx"][-1] + (r["T"] << (len(r["tx"]) - 1)) for r in pend if r["T"] is not None]
+            if et < -1:
+                problems.append("epoll_wait timeout %d" % et)
+            if et == -1 and (pend or fog) and tmo == 0 and not fog:
+                problems.append("coap_io_process sleeps for ever with %d message(s) pending" % len(pend))
+            if et == -1 and tmo != 0:
+                problems.append("coap_io_process(%d) sleeps for ever" % tmo)
+            if tmo == 4294967295 and et != 0:
+                problems.append("COAP_IO_NO_WAIT but epoll_wait timeout %d" % et)
+            if dl and et > min(dl) - now and not fog:
+                problems.append("coap_io_process sleeps %d ms, earliest deadline in %d ms" % (et, min(dl) - now))
+            if 0 < tmo < 4294967295 and et > tmo:
+                problems.append("coap_io_process(%d) sleeps %d ms" % (tmo, et))
+            if et > 0:
+                now += et
+            process_fired(its[ep[0] + 1:io[0]])
+            t_io, ret = int(its[io[0]][2][0]), int(its[io[0]][2][1])
+            if t_io != now or ret != max(et, 0):
+                problems.append("coap_io_process returned %d at %d, slept %d until %d" % (ret, t_io, max(et, 0), now))
+            if not fog:
+                for r in [r for v in live.values() for r in v]:
+                    if r["T"] is not None and r["tx"][-1] + (r["T"] << (len(r["tx"]) - 1)) <= now:
+                        problems.append("coap_io_process left mid %d behind although it was due" % r["mid"])
+            continue
         if k in ("S", "K", "P", "R", "N") and int(e[1]) % ns in dead:
             if its:
                 problems.append("event on a disconnected session produced %s" % [i[1] for i in its])
@@ -310,101 +444,7 @@ def impl_oracle(line, out):
                     r["out"] = "rst"
                     closed.append(r)
                     stats["rst"] += 1
-        # everything else in this event comes from the retransmit loop of a prepare call
-        for it in fired:
-            kind, f = it[1], it[2]
-            if kind == "tx":
-                t, s2, b = int(f[0]), int(f[1]), f[2]
-                mid2 = int(b[4:8], 16) if len(b) >= 8 and not b.startswith("#") else None
-                if t != now:
-                    problems.append("transmission stamped %d during an event at %d" % (t, now))
-                r = rec_for(s2, mid2) if mid2 is not None else None
-                if (s2, mid2) in fog:
-                    stats["retx"] += 1
-                    continue
-                if mid2 is not None and not live.get((s2, mid2)):
-                    problems.append("mid %d on session %d transmitted although it is not pending "
-                                    "(after its outcome, or never accepted)" % (mid2, s2))
-                    continue
-                stats["retx"] += 1
-                if r is None:
-                    continue
-                if b != r["bytes"]:
-                    problems.append("retransmission of mid %d is not byte-identical" % r["mid"])
-                if r["T"] is not None and t < r["tx"][-1] + (r["T"] << (len(r["tx"]) - 1)):
-                    problems.append("mid %d retransmitted at %d, before its deadline" % (r["mid"], t))
-                r["tx"].append(t)
-                if len(r["tx"]) > r["cfg"][4] + 1:
-                    problems.append("mid %d transmitted %d times, MAX_RETRANSMIT=%d" %
-                                    (r["mid"], len(r["tx"]), r["cfg"][4]))
-            elif kind == "nk":
-                t, s2, reason, mid2, has = [int(x) for x in f]
-                if reason != 0 or not has:
-                    problems.append("unexpected NACK %s" % f)
-                    continue
-                l = live.get((s2, mid2), [])
-                if (s2, mid2) in fog:
-                    stats["giveup"] += 1
-                    continue
-                if not l:
-                    problems.append("NACK TOO_MANY_RETRIES for mid %d which is not pending" % mid2)
-                    continue
-                r = l.pop(0)
-                if not r["taint"]:
-                    if len(r["tx"]) != r["cfg"][4] + 1:
-                        problems.append("mid %d given up after %d transmissions, MAX_RETRANSMIT=%d" %
-                                        (mid2, len(r["tx"]), r["cfg"][4]))
-                    if r["T"] is not None and t < r["tx"][-1] + (r["T"] << (len(r["tx"]) - 1)):
-                        problems.append("mid %d given up at %d, before its deadline" % (mid2, t))
-                r["out"] = "giveup"
-                closed.append(r)
-                stats["giveup"] += 1
-            elif kind == "w":
-                t, w, hd = int(f[0]), int(f[1]), int(f[2])
-                last_tick, last_wait = t, w
-                if t != now:
-                    problems.append("prepare stamped %d at %d" % (t, now))
-                npend = sum(len(v) for v in live.values())
-                if fog:
-                    continue
-                if hd < 0:
-                    if npend:
-                        problems.append("nothing queued at %d although %d message(s) are pending" % (t, npend))
-                    if w != 0 and not relaxed:
-                        problems.append("wait %d reported with nothing pending" % w)
-                else:
-                    if not npend:
-                        problems.append("queue head at %d but no message is pending" % hd)
-                    if hd <= t:
-                        problems.append("prepare at %d left a message that was due at %d" % (t, hd))
-                    if w > hd - t:
-                        problems.append("reported wait %d exceeds the time to the earliest deadline %d" % (w, hd - t))
-                    if not relaxed and hd - t < (1 << 32) and w != hd - t:
-                        problems.append("reported wait %d, earliest deadline in %d" % (w, hd - t))
-                    if w == 0 and (hd - t) % (1 << 32) != 0:
-                        problems.append("reported wait 0 (= nothing pending) with a deadline in %d" % (hd - t))
-                    pend = [r for v in live.values() for r in v]
-                    if len(pend) == 1 and not pend[0]["taint"]:
-                        check_T(pend[0], t, hd, len(pend[0]["tx"]) - 1)
-            elif kind == "q":
-                t = int(f[0])
-                ents = [] if f[1] == "-" else [tuple(int(x) for x in z.split("/")) for z in f[1].split(",")]
-                want = sorted((r["sess"], r["mid"]) for v in live.values() for r in v)
-                got = sorted((s2, m2) for (_, s2, m2, _) in ents if (s2, m2) not in fog)
-                if want != got:
-                    problems.append("queue holds %s, pending messages are %s" % (got, want))
-                if [d for (d, _, _, _) in ents] != sorted(d for (d, _, _, _) in ents):
-                    problems.append("queue not ordered by deadline: %s" % ents)
-                for (d, s2, m2, cnt) in ents:
-                    r = rec_for(s2, m2) if (s2, m2) not in fog else None
-                    if r is None:
-                        continue
-                    if cnt != len(r["tx"]) - 1:
-                        problems.append("mid %d: retransmit_cnt %d after %d transmissions" % (m2, cnt, len(r["tx"])))
-                    else:
-                        check_T(r, t, d, cnt)
-            elif kind == "s":
-                problems.append("stray coap_send result")
+        process_fired(fired)
         # a head deadline seen in a wait item also reveals T of the head message
     facts = dict(stats)
     facts["pending_at_end"] = sum(len(v) for v in live.values())
@@ -539,6 +579,8 @@ def main(run):
         gens.append(G.gen_long_case(r))
     for _ in range(400 if quick else 15000):
         gens.append(G.gen_cancel_case(r))
+    for _ in range(300 if quick else 10000):
+        gens.append(G.gen_ioloop_case(r))
     for _ in range(40 if quick else 1000):
         gens.append(G.gen_separate_case(r))
     for c in gens:
@@ -547,6 +589,7 @@ def main(run):
     om, oc, crashes = run_pair(model, drv, lines)
     run.cov["driver_crashes"] = len(crashes)
     nbad = 0
+    nkind = {}
     oracle_self = []
     agg = {"retx": 0, "acked": 0, "rst": 0, "giveup": 0, "sent": 0, "disc": 0, "pending_at_end": 0}
     for i, ln in enumerate(lines):
@@ -587,7 +630,9 @@ def main(run):
                 no_input = True
         if bad:
             nbad += 1
-            if nbad <= 3:
+            kindbad = "oracle" if probs or co.startswith("CRASH") else "tie"
+            nkind[kindbad] = nkind.get(kindbad, 0) + 1
+            if nkind[kindbad] <= 3:
                 small = ln
                 if c is not None:
                     def still(prefix, cand):
